@@ -604,6 +604,35 @@ def run_history(hist, queries):
     return res
 
 
+def stage_events_tok(hist, stage, ev_tok):
+    """What the segments of a stage HOLD, as far as the model's row data goes.  A flush writes no column block for
+    a field that is absent from every row of a zone (Model/Cond.v: hollow).  Compaction reads its input rows back
+    through ZoneCursor, which gives every schema field of such a zone an explicit Null (zone_cursor.rs: `v.get(idx)
+    .cloned().unwrap_or(ScalarValue::Null)`), and writes them out again: in the zones of a compaction output
+    (segment id >= 10000) a cell that was absent in a whole zone is a stored null from then on, and the zone has a
+    block for the field.  The model is given those rows; the reference oracle does not care (null and absent both
+    fail every comparison)."""
+    segs = stage.get("segs") or []
+    parts = stage["layout"].split("/")[1:]
+    if not any(g.isdigit() and int(g) >= 10000 for g in segs) or len(parts) != len(segs):
+        return ev_tok
+    events = [[e[0], [list(v) for v in e[1]]] for e in hist["events"]]
+    changed = False
+    for seg, part in zip(segs, parts):
+        if not (seg.isdigit() and int(seg) >= 10000) or not part.startswith("S:"):
+            continue
+        for z in part[2:].split(";"):
+            if "=" not in z:
+                continue
+            rows = [int(x) for x in z.split("=", 1)[1].split(".") if x != ""]
+            for fi, f in enumerate(hist["schema"]):
+                if f.get("opt") and rows and all(events[r][1][fi][0] == "a" for r in rows):
+                    for r in rows:
+                        events[r][1][fi] = ["n"]
+                    changed = True
+    return ",".join(event_tok(e) for e in events) if changed else ev_tok
+
+
 def hist_key(h):
     return json.dumps([h["cfg"], h["schema"], h["events"], h["split"]], sort_keys=True)
 
@@ -632,7 +661,7 @@ def run_sides(cases_, model_ok):
                                                             for s in res["stages"]]}
                 model[n] = {"stages": [], "class": None}
                 for s in res["stages"]:
-                    mlines.append(f"query_run {st_tok} {ev_tok} {s['layout']} {query_tok(q)} {s['answers']}")
+                    mlines.append(f"query_run {st_tok} {stage_events_tok(hist, s, ev_tok)} {s['layout']} {query_tok(q)} {s['answers']}")
                     mwhere.append((n, "stage"))
                 mlines.append(f"query_class {st_tok} {ev_tok} {query_tok(q)}")
                 mwhere.append((n, "class"))
